@@ -47,7 +47,13 @@ TRAIN_a = [1.5, -2.0, 4.0]
 FOLLOW_a = [2.5, -1.0, 3.0]
 
 TRAININGS = [list(reversed(t)) for n in (1, 2, 3) for t in itertools.combinations_with_replacement("xyz", n)]
-REPRESENTATIVES = [["x"], ["y", "x"], ["z", "y", "x"]]
+REPRESENTATIVES = [["x"], ["y", "x"], ["z", "y", "x"]]                      # one per number of levels
+LEVEL_SETS = [list(reversed(t)) for n in (1, 2, 3) for t in itertools.combinations("xyz", n)]  # one per level set
+
+
+def trainings_of(ctx):
+    trs = ctx["trainings"]
+    return [t for v in trs.values() for t in v] if isinstance(trs, dict) else trs
 
 
 def text_events(col, alphabet, maxlen):
@@ -231,7 +237,8 @@ def choose_config(c, ctx):
     formula = c.pick(ctx.get("formulas", FORMULAS))
     efr = not c.flag()
     out = c.pick(ctx["outputs"])
-    tr = c.pick(ctx["trainings"])
+    trs = ctx["trainings"]
+    tr = c.pick(trs[out] if isinstance(trs, dict) else trs)
     return formula, efr, out, tr
 
 
@@ -344,33 +351,38 @@ def selftest():
             for k in ("A", "a"):
                 for which in ("ev1", "ev2"):
                     assert all(e in f["ev1"][k] for e in hc[which][k]), (tier, k, which)
-            assert all(t in f["trainings"] for t in hc["trainings"]) and all(o in f["outputs"] for o in hc["outputs"])
+            for o in hc["outputs"]:
+                assert o in f["outputs"] and all(t in f["trainings"][o] for t in trainings_of(hc)), (tier, o)
 
 
 def contexts(tier, seed):
     a_small = num_events("a", a_VALUES, 1) + [("a", "num", [1.5, 0.0])]
     if tier == "quick":
-        f = {"outputs": ["pandas", "numpy", "sparse"], "trainings": TRAININGS,
+        f = {"outputs": ["pandas", "numpy", "sparse"],
+             "trainings": {"pandas": TRAININGS, "numpy": REPRESENTATIVES, "sparse": REPRESENTATIVES},
              "ev1": {"A": text_events("A", "xyzw", 2) + A_NUMERIC, "a": a_small + a_TEXT[:2]}}
         second = {"A": text_events("A", "xyzw", 1) + [("A", "text", ["w", "x"]), ("A", "text", ["z", "y"]), A_NUMERIC[0]],
                   "a": a_small[:3] + a_TEXT[:1]}
         first = {"A": text_events("A", "xyzw", 2) + A_NUMERIC[:1], "a": a_small[:3] + a_TEXT[:1]}
         others = [t for t in TRAININGS if t not in REPRESENTATIVES]
         extra = others[seed % len(others)]
+        f["trainings"]["numpy"] = f["trainings"]["sparse"] = REPRESENTATIVES + [extra]
         h = [{"outputs": ["pandas"], "trainings": REPRESENTATIVES, "ev1": first, "ev2": second, "name": "history"},
              {"outputs": ["pandas"], "trainings": [extra], "ev1": first, "ev2": second, "name": "history-seed-slice"}]
     else:
-        f = {"outputs": ["pandas", "numpy", "sparse"], "trainings": TRAININGS,
+        f = {"outputs": ["pandas", "numpy", "sparse"], "trainings": {o: TRAININGS for o in ("pandas", "numpy", "sparse")},
              "ev1": {"A": text_events("A", "xyzw", 3) + A_NUMERIC, "a": num_events("a", a_VALUES, 3) + a_TEXT}}
         both = {"A": text_events("A", "xyzw", 2) + A_NUMERIC[:2], "a": a_small + a_TEXT[:2]}
-        h = [{"outputs": ["pandas"], "trainings": TRAININGS, "ev1": both, "ev2": both, "name": "history"},
+        h = [{"outputs": ["pandas"], "trainings": LEVEL_SETS, "ev1": both, "ev2": both, "name": "history"},
              {"outputs": ["numpy", "sparse"], "trainings": REPRESENTATIVES, "ev1": both, "ev2": both,
               "name": "history-numpy-sparse"}]
     return f, h
 
 
 def describe(ctx):
-    return {"formulas": FORMULAS, "outputs": ctx["outputs"], "training_A_columns": len(ctx["trainings"]),
+    trs = ctx["trainings"]
+    return {"formulas": FORMULAS, "outputs": ctx["outputs"],
+            "training_A_columns": {o: v for o, v in trs.items()} if isinstance(trs, dict) else trs,
             "first_followups": {k: len(v) for k, v in ctx["ev1"].items()},
             "second_followups": {k: len(v) for k, v in ctx.get("ev2", {}).items()} or None,
             "ensure_full_rank": [True, False]}
@@ -384,6 +396,5 @@ def subchecks(tier, seed):
         b = describe(hc)
         if hc["name"] == "history-seed-slice":
             b["note"] = "VERIF_SEED-selected exhaustive slice of the thorough scope (one more training column)"
-            b["training_A"] = hc["trainings"]
-        subs.append(Sub(hc["name"], drv_history, hc, shard_depth=5 if len(hc["trainings"]) < 19 else 4, bounds=b))
+        subs.append(Sub(hc["name"], drv_history, hc, shard_depth=5, bounds=b))
     return subs
